@@ -262,3 +262,87 @@ def no_return_value(a: int) -> None:
     if 1 <= a <= 20:
         return
     _ck("a", a, 0, 1000)
+
+
+# ---- while loops (fuel-recursive functions; a Lean reply `!dom` = out of fuel, not compared) ------------------
+
+def gcd_loop(a: int, b: int) -> int:
+    a = abs(a)
+    b = abs(b)
+    while b != 0:
+        a, b = b, a % b
+    return a
+
+
+def collatz_steps(n: int) -> int:
+    steps = 0
+    if n < 1:
+        return -1
+    while n != 1:
+        if n & 1 == 0:
+            n //= 2
+        else:
+            n = 3 * n + 1
+        steps += 1
+    return steps
+
+
+def _length(year: int) -> int:
+    return 366 if year % 4 == 0 else 365
+
+
+def year_search(days: int) -> tuple[int, int]:
+    """the shape of _YearMonthDayCalculator._get_year: an estimate, then one of two correction loops"""
+    candidate = days // 365
+    start = candidate * 365 + (candidate + 3) // 4
+    rem = days - start
+    if rem < 0:
+        while rem < 0:
+            candidate -= 1
+            rem += _length(candidate)
+        return (candidate, rem)
+    length = _length(candidate)
+    while rem >= length:
+        candidate += 1
+        rem -= length
+        length = _length(candidate)
+    return (candidate, rem)
+
+
+def loop_with_raise(a: int) -> int:
+    total = 0
+    while a > 0:
+        total += _ckv(a, 0, 40)
+        a -= 7
+    return total
+
+
+def bitwise(a: int, b: int) -> tuple[int, int, int, int]:
+    return (a & b, a | b, a ^ b, a & 6)
+
+
+def runtime_shifts(a: int, b: int) -> tuple[int, int]:
+    return (a >> b, a << b)
+
+
+PATTERN: Final[int] = 623158436
+
+
+def bit_test(year: int) -> bool:
+    year_of_cycle = year % 30 if year >= 0 else -(-year % 30) + 30
+    key = 1 << year_of_cycle
+    return PATTERN & key > 0
+
+
+def for_range_sum(a: int, b: int) -> int:
+    total = 0
+    for i in range(a, b):
+        total += _length(i) - 360
+    return total
+
+
+def for_range_one_arg(n: int) -> int:
+    acc = 1
+    for k in range(n):
+        acc = (acc * 3 + k) % 1000003
+    return acc
